@@ -10,7 +10,7 @@ import sys
 import time
 
 HOME = os.environ.get("VERIF_HOME", os.path.dirname(os.path.dirname(os.path.abspath(__file__))))
-REPO = "/repo"
+REPO = os.environ.get("VERIF_REPO", "/repo")
 COQ = os.path.join(HOME, "coq")
 OCAML = os.path.join(HOME, "ocaml")
 EVID = os.path.join(HOME, "evidence")
@@ -142,6 +142,17 @@ def proof_status(pid):
     axioms = sorted(set(re.findall(r"^([A-Za-z0-9_.']+)\s*:", out, re.M)))
     res["assumptions"] = {"closed_theorems": closed, "axioms": axioms}
     return res
+
+
+def coqchk(pid):
+    """independent re-check of the compiled property file and everything it depends on (thorough tier)"""
+    with Lock("build"):
+        rc, out = sh(f"timeout 2400 coqchk -silent -o -Q . Verif Verif.Properties.{pid}", cwd=COQ, timeout=2500)
+    summ = out[out.find("CONTEXT SUMMARY"):] if "CONTEXT SUMMARY" in out else out[-1500:]
+    ax = re.search(r"\* Axioms:(.*?)\n\s*\n\* Constants", summ, re.S)
+    axioms = [a.strip() for a in (ax.group(1).strip().splitlines() if ax else []) if a.strip() and a.strip() != "<none>"]
+    bad = [k for k in ("type-in-type", "unsafe (co)fixpoints", "positivity is assumed") if re.search(re.escape(k) + r": (?!<none>)\S", summ)]
+    return {"ok": rc == 0 and not bad, "axioms": axioms, "flags": bad, "tail": summ[-600:] if rc != 0 else ""}
 
 
 def hygiene():
